@@ -130,6 +130,8 @@ def check_conv(prog: Program, res: Result) -> None:
 
 
 def check(prog: Program, res: Result) -> None:
+    from . import c14
+    res.borrow(c14.check_state, "C02-state", prog)
     check_entries(prog, res, ("single", "topdown"))
     check_conv(prog, res)
     # crops inherit eff_scale / orig_size / image of the frame their centroid was found in (shared with C12-crop)
